@@ -9,7 +9,7 @@ use proptest::prelude::*;
 use serde::{Deserialize, Serialize};
 use serde_json::json;
 
-pub const RULE: &str = "positions: all generator sources incl. the multi-queen / under-promotion themes (game phase up to 88) and walks from them; for each position P and its mirror twin M (ranks flipped, colours, side, rights and e.p. target swapped, built by the reference model): eval(P) == eval(M), no panic, eval is not a mate score, and with mg := eval with the phase counter forced to 24 and eg := forced to 0, min(mg,eg) <= eval(P) <= max(mg,eg). Every walk is also played on one engine Game (make_move) and the evaluation of each position reached by play is held to the same demands (band from a fresh copy, mirror twin built from scratch). Key collisions ('positions_whose_keys_agree_on_most_bits'): pairs of different legal positions constructed so that their keys agree on the upper 48 / lower 48 / upper 32 + lower 20 / ... bits (Gaussian elimination over the per-(man, square) key words, read off zobrist::hash) are evaluated one right after the other; each must get the value of its own mirror twin and lie in its own band. Blend triples: PhasedEval::new(mg,eg).for_phase(p) lies between mg and eg for mg,eg in [-20000,20000], p in 0..=88. Non-trivial position = phase above 24 or asymmetric pawn structure / king placement; distinct by identity.";
+pub const RULE: &str = "positions: all generator sources incl. the multi-queen / under-promotion themes (game phase up to 88) and walks from them; for each position P and its mirror twin M (ranks flipped, colours, side, rights and e.p. target swapped, built by the reference model): eval(P) == eval(M), no panic, eval is not a mate score, and with mg := eval with the phase counter forced to 24 and eg := forced to 0, min(mg,eg) <= eval(P) <= max(mg,eg). Every walk is also played on one engine Game (make_move) and the evaluation of each position reached by play is held to the same demands (band from a fresh copy, mirror twin built from scratch). Key collisions ('positions_whose_keys_agree_on_most_bits'): pairs of different legal positions constructed so that their keys agree on the upper 48 / lower 48 / upper 32 + lower 20 / ... bits (Gaussian elimination over the per-(man, square) key words, read off zobrist::hash) are evaluated one right after the other; each must get the value of its own mirror twin and lie in its own band. Long played histories ('long_played_histories'): games nested 1100-1500 plies deep and then taken back move by move on one engine Game; on the way back every sixteenth position is evaluated and held to the same demands. Blend triples: PhasedEval::new(mg,eg).for_phase(p) lies between mg and eg for mg,eg in [-20000,20000], p in 0..=88. Non-trivial position = phase above 24 or asymmetric pawn structure / king placement; distinct by identity.";
 
 #[derive(Serialize, Deserialize, Clone, Debug)]
 pub struct Triple {
@@ -177,7 +177,31 @@ fn check_pair(c: &PairCase, st: &mut Stats) -> Result<(), Fail> {
     check_position(&b, st).map_err(|f| f.explicit(ex()))
 }
 
+/// Long games (1100-1500 plies deep, then taken back move by move) on one engine Game: the evaluation
+/// of the positions met on the way back - long after they were first passed - is held to the demands.
+struct LongObs;
+
+impl super::hist::Observer for LongObs {
+    fn after_op(&mut self, g: &crate::chess::game::Game, pos: &Pos, op: &super::hist::Op, stack: &[Pos], st: &mut Stats) -> Result<(), Fail> {
+        if matches!(op, super::hist::Op::Undo) && stack.len() % 16 == 3 || stack.len() % 97 == 0 {
+            check_played(g, pos, st)?;
+        }
+        Ok(())
+    }
+}
+
 pub fn run(run: &mut Run) -> &'static str {
+    let cases = run.tier.pick(160, 3_000);
+    run.proptest_part("long_played_histories", RULE, super::hist::hist_case(400..1500), cases, |case: &super::hist::HistCase, st: &mut Stats| {
+        let mut obs = LongObs;
+        if let Some((feat, root, ops)) = super::hist::interpret(case, &super::hist::Config::long(), st, &mut obs)? {
+            if feat.max_depth >= 257 {
+                st.class("taken_back_from_a_depth_of_257_plies_or_more");
+                st.nontrivial(&(root, ops.len(), crate::framework::hash_of(&ops)));
+            }
+        }
+        Ok(())
+    });
     let cases = run.tier.pick(20_000, 400_000);
     run.proptest_part("positions_whose_keys_agree_on_most_bits", RULE, tape(80..200).prop_map(PairCase::Tape), cases, check_pair);
     let cases = run.tier.pick(300_000, 6_000_000);
